@@ -125,6 +125,32 @@ def run_check(tier, seed):
         ops, names = rand_ops(r, nc, r.randint(1, 14))
         seqs.append((ops, names, 'random'))
 
+    # structured: applications whose SECOND (or first) argument sits in a class that is grown in several steps and then
+    # absorbed into another class; the equality of the results is entailed only through the last merges
+    for _ in range(120 if tier == 'quick' else 1500):
+        k = r.choice([2, 2, 3])
+        names = ['g', 'h'] + ['a%d' % i for i in range(k)] + ['b%d' % i for i in range(k)] + ['u%d' % i for i in range(k)] + ['e0', 'e1']
+        pos = r.choice([1, 1, 0])
+        head = r.choice(['g', 'h'])
+        feqs = [('f', head, 'a%d' % i, 'u%d' % i) if pos == 1 else ('f', 'a%d' % i, head, 'u%d' % i) for i in range(k)]
+        grow = [('c', 'a%d' % i, 'b%d' % i) for i in range(k)]
+        if r.random() < 0.5:
+            grow.append(('c', 'b0', 'e0'))
+        if r.random() < 0.3:
+            grow.append(('c', 'b%d' % (k - 1), 'e1'))
+        join = [('c', r.choice(['a%d' % i, 'b%d' % i]), r.choice(['a%d' % (i + 1), 'b%d' % (i + 1)])) for i in range(k - 1)]
+        c = r.random()
+        if c < 0.4:
+            ops = feqs + grow + join
+        elif c < 0.6:
+            ops = grow + feqs + join
+        elif c < 0.8:
+            ops = feqs + join + grow
+        else:
+            ops = feqs + grow + join
+            r.shuffle(ops)
+        seqs.append((ops, names, 'structured-argument-classes'))
+
     exprs, meta = [], []
     for ops, names, origin in seqs:
         run.stat('origin:' + origin)
